@@ -78,6 +78,26 @@ def add_overlaps(resp, survey, aliases, weighted, about=None):
     return resp
 
 
+def put_items_to_subsamples(survey, alias, rng, first_share=None):
+    """Per-item missingness of the MR `alias`: every item is put to its own random sub-sample of the
+    respondents (share drawn per item from 0.3 .. 1.0; `first_share` fixes the one of item 0), the
+    others get MIS for that item.  To be applied BEFORE the survey is tabulated.  Afterwards the
+    items have different valid respondents, so every quantity that is "per row item" of an MR x MR
+    table (column bases, selected / valid overlap bases, degrees of freedom) differs between the
+    rows.  Returns the shares."""
+    mr = survey.var(alias)
+    assert mr.kind == "mr"
+    shares = [rng.choice([0.3, 0.45, 0.6, 0.8, 1.0]) for _ in mr.items]
+    if first_share is not None and shares:
+        shares[0] = first_share
+    for r in survey.resp:
+        ans = r["ans"][alias]
+        for i, sh in enumerate(shares):
+            if rng.random() >= sh:
+                ans[i] = MIS
+    return shares
+
+
 def overlap_bases_from_survey(survey, aliases, weighted):
     """Independent respondent-level computation of what the overlap test uses.
 
